@@ -25,6 +25,7 @@ VARIABLES l,        \* number of trace lines consumed
           origin    \* <<>> or <<[line, a, defect]>>
 
 TNoFix == {}
+TKeepEmpty == {"keepempty"}    \* evaluating docs/fix_c16_4.diff: emptied nodes are legal
 
 Ev == Log[l + 1]
 IsEv(e) == l < NLines /\ Ev.e = e
@@ -57,6 +58,7 @@ QDev(q, f) == IF ~Proper(q) THEN ""
               ELSE IF ~QAgrees(q, f) THEN "query" ELSE ""
 
 Shape(q) == IF q.q \in {"get", "prefix", "split"} THEN "key"
+            ELSE IF q.q = "total" THEN "nil-nil"
             ELSE (IF q.s = Nil THEN "nil" ELSE "key") \o "-" \o (IF q.e = Nil THEN "nil" ELSE "key")
 
 \* the keys accumulationSplit is called with by the query (nil is the empty key)
